@@ -140,10 +140,12 @@ def ref_call(call):
 def _nb_files(rng):
     base, local, remote = nbgen.triple(rng, max_cells=rng.choice([1, 2, 3]), overlap=0.6, minor=rng.choice([4, 5]))
     other = nbgen.notebook(rng, max_cells=2)
-    return {"a.ipynb": base, "b.ipynb": local, "c.ipynb": remote, "sub/d.ipynb": other}
+    # a2: a.ipynb with one character replaced - another notebook of exactly the same size
+    return {"a.ipynb": base, "b.ipynb": local, "c.ipynb": remote, "sub/d.ipynb": other,
+            "a2.ipynb": nbgen.edit(rng, base, n_edits=1, kinds=["samelen"])}
 
 
-GOOD = ["a.ipynb", "b.ipynb", "c.ipynb", "sub/d.ipynb"]   # (v3.ipynb exists too, but converting it draws random cell ids)
+GOOD = ["a.ipynb", "b.ipynb", "c.ipynb", "sub/d.ipynb", "a2.ipynb"]   # (v3.ipynb exists too, but converting it draws random cell ids)
 BADFILES = ["notes.txt", "empty.ipynb", "broken.ipynb", "nothere.ipynb", "adir.ipynb", "v99.ipynb"]
 URL_OK = "http://peer.invalid/nb/ok.ipynb"
 URLS_BAD = ["http://peer.invalid/404.ipynb", "http://peer.invalid/500.ipynb", "http://peer.invalid/refused.ipynb",
@@ -219,6 +221,10 @@ def generate(rng, index, cfg):
                                            "data": {"image/png": ("iVBORw0KGgo" + "%08x" % rng.getrandbits(32)) * rng.choice([70000, 160000]) + "\n"}}]})
         upload_pool.append(huge)
     world["alternates"] = [nbgen.edit(rng, files[rng.choice(GOOD[:3])]) for _ in range(3)]
+    world["alternates"].append(nbgen.edit(rng, files["a.ipynb"], n_edits=1, kinds=["samelen"]))     # same size as a.ipynb
+    # all notebooks carry one and the same modification time (unpacked from an archive, cp -p, rsync -t, a checkout on a
+    # file system with coarse timestamps), and files edited between two requests keep it
+    world["same_stamp"] = rng.random() < 0.35
 
     def name(good=True):
         if good:
@@ -241,7 +247,7 @@ def generate(rng, index, cfg):
         if swarm["clients"] == 1 and rng.random() < 0.12:
             # the user edits a notebook on disk between two requests (only without concurrent clients, so that the
             # reference reads the same version the server read)
-            return {"kind": "touch", "file": rng.choice(GOOD[:3]), "alt": rng.randrange(3), "start": 0.0}
+            return {"kind": "touch", "file": rng.choice(GOOD[:3] + ["a.ipynb"]), "alt": rng.randrange(4), "start": 0.0}
         malformed = rng.random() < swarm["p_malformed"]
         r = rng.random()
         ex = {"headers": {}, "method": "POST"}
@@ -500,6 +506,9 @@ class Runner:
             with open(os.path.join(w.work, name), "w", encoding="utf8") as f:
                 json.dump(nb, f, indent=1)
                 f.write("\n")
+        if tw.get("same_stamp"):
+            for name in tw["files"]:
+                os.utime(os.path.join(w.work, name), (1000000000, 1000000000))
         with open(os.path.join(self.outside, "secret.ipynb"), "w") as f:
             json.dump(tw["files"]["a.ipynb"], f)
         with open(os.path.join(w.work, "notes.txt"), "w") as f:
@@ -685,6 +694,8 @@ class Runner:
                     with _real_open(os.path.join(self.w.work, ex["file"]), "w", encoding="utf8") as f:
                         json.dump(alts[ex["alt"] % len(alts)], f, indent=1)
                         f.write("\n")
+                    if self.trace["world"].get("same_stamp"):
+                        os.utime(os.path.join(self.w.work, ex["file"]), (1000000000, 1000000000))
                     self.snap = _snapshot(self.snap_dirs)
                     self.stat("probe_input_file_edited_between_requests")
                     self.log.ev("touch", file=ex["file"], alt=ex["alt"])
